@@ -1866,6 +1866,10 @@ def run_fp12_gt(E, name, F2):
                 R.fp_put_raw(y + i * R.fp_sz, top)
                 R.fp_put_raw(z + i * R.fp_sz, top)
             r = R.call(fpck, y, x)
+            if r.caught and fpck == "fp12_pck_max" and flat == one:
+                # the unit has no maximum-rate (torus) compressed form: an error is a legitimate rejection, no verdict
+                ctx.add("pck_max_unit_rejected", 1)
+                return
             if not ctx.check(not r.caught, k + "|unexpected-error", {"err": r.err}):
                 return
             got, canon = R.fpx_get(y, 12)
